@@ -265,6 +265,9 @@ def assign_layout(layout, nb, l):
     cls = layout["cls"]
     if cls == "single":
         return [0] * nb, {}
+    if cls == "perbox":
+        # one binary file per box (a run on as many ranks as boxes): dozens of files in a level
+        return list(range(nb)), {}
     r = random.Random(layout["seed"] * 13 + l)
     nfiles = layout["nfiles"]
     files = [r.randrange(nfiles) for _ in range(nb)]
